@@ -15,6 +15,9 @@ pub const HTML_LOCALS: &[&str] = &[
     "SCRIPT", "Script", "style", "STYLE", "title", "textarea", "table", "td", "ul", "li", "html", "head", "body", "h1",
     "basefont", "frame", "param", "keygen", "svg", "math", "custom", "x-y", "\u{212a}bd", "kbd", "a", "b", "lin\u{212a}", "LIN\u{212a}",
     "\u{212a}eygen", "trac\u{212a}", "track",
+    // the other "raw text" elements of the WHATWG serialisation algorithm: the property allows raw
+    // '<' / '&' inside script and style only (seed C19e)
+    "xmp", "XMP", "iframe", "noembed", "noframes", "plaintext", "noscript", "listing",
 ];
 const MATHML_LOCALS: &[&str] = &["math", "mi", "mo", "mrow", "annotation-xml", "script", "br"];
 const SVG_LOCALS: &[&str] = &["svg", "g", "circle", "foreignObject", "script", "style", "title", "a", "br"];
